@@ -4,6 +4,7 @@ package ui
 
 import (
 	"fmt"
+	"os"
 	"strings"
 	"testing"
 	"time"
@@ -264,7 +265,7 @@ func TestVerifC16(t *testing.T) {
 					h = 2 + r.Intn(4)
 				}
 				trail = append(trail, fmt.Sprintf("resize %dx%d", w, h))
-				x.s.SetWidthHeight(w, h)
+				x.resize(w, h)
 			}
 			if r.Intn(8) == 0 {
 				// a status line around the terminal width, with line feeds and other control bytes typed into it
@@ -285,12 +286,28 @@ func TestVerifC16(t *testing.T) {
 			}
 			trail = append(trail, tk.desc)
 			stop := false
+			// sometimes the media hook takes a while and the terminal is resized while it runs
+			slowHook := (tk.desc == "media" || strings.HasPrefix(tk.desc, "number")) && r.Intn(4) > 0
+			if slowHook {
+				os.Setenv("VERIF_HOOK_SLEEP_MS", "300")
+			}
 			for _, b := range tk.keys {
 				b := b
 				c.R.Evaluations++
 				if c.Guard("frame:", desc(), func() { x.s.Update(b) }) {
 					stop = true
 					break
+				}
+			}
+			if slowHook {
+				os.Unsetenv("VERIF_HOOK_SLEEP_MS")
+				if !stop && x.snap().mode == opening {
+					for i, k := 0, 1+r.Intn(2); i < k; i++ {
+						w, h := 20+r.Intn(120), 2+r.Intn(59)
+						trail = append(trail, fmt.Sprintf("resize %dx%d while the hook runs", w, h))
+						c.Count("resizes_while_opening", 1)
+						x.resize(w, h)
+					}
 				}
 			}
 			if stop || !x.settle(30*time.Second) {
